@@ -3,6 +3,7 @@ package main
 // C02 — total, should-total and diff.
 
 import (
+	"go/token"
 	"fmt"
 
 	"golang.org/x/tools/go/ssa"
@@ -574,7 +575,11 @@ func valueRows(v ssa.Value, depth int, visiting map[ssa.Value]bool) []vrow {
 	}
 	if ex, ok := v.(*ssa.Extract); ok {
 		if c, ok := ex.Tuple.(*ssa.Call); ok {
-			if g := staticCallee(c); g != nil && g.Parent() != nil {
+			if g := staticCallee(c); g != nil && (g.Parent() != nil || isHelper(g)) {
+				if isHelper(g) {
+					g = originFn(g)
+					ht.ctx[g] = c
+				}
 				var out []vrow
 				for _, ret := range returnsOf(g) {
 					rw := vrow{guards: guardsOf(ret.Block()), at: ret, call: c}
@@ -591,12 +596,40 @@ func valueRows(v ssa.Value, depth int, visiting map[ssa.Value]bool) []vrow {
 		}
 	}
 	if c, ok := v.(*ssa.Call); ok {
-		if g := staticCallee(c); g != nil && g.Parent() != nil && g.Signature.Results().Len() == 1 {
+		if g := staticCallee(c); g != nil && (g.Parent() != nil || isHelper(g)) && g.Signature.Results().Len() == 1 {
+			if isHelper(g) {
+				g = originFn(g)
+				ht.ctx[g] = c
+			}
 			var out []vrow
 			for _, ret := range returnsOf(g) {
 				out = append(out, vrow{guards: guardsOf(ret.Block()), at: ret, call: c, val: retResult(ret, 0)})
 			}
 			return out
+		}
+	}
+	// a variable that is assigned in several branches and captured by a closure (a cell instead
+	// of a phi): one row per assignment, under the conditions of the assignment
+	if u, ok := v.(*ssa.UnOp); ok && u.Op == token.MUL {
+		if cell := cellOf(u.X); cell != nil {
+			if sts := storesTo(cell); len(sts) > 1 && len(sts) <= 6 {
+				visiting[v] = true
+				defer delete(visiting, v)
+				var out []vrow
+				for _, st := range sts {
+					if st.in.Parent() != cell.Parent() {
+						return []vrow{{val: v}}
+					}
+					for _, sub := range valueRows(st.val, depth+1, visiting) {
+						sub.guards = append(sub.guards, guardsOf(st.in.Block())...)
+						if sub.at == nil {
+							sub.at = st.in
+						}
+						out = append(out, sub)
+					}
+				}
+				return out
+			}
 		}
 	}
 	if ph, ok := v.(*ssa.Phi); ok {
